@@ -140,3 +140,32 @@ def run(ctx):
                            "txid <= up_to_txid and is skipped by recovery on the following reopen", "%s:%d" % (b.file, st[3]),
                            sample={"fn": fn, "loads": [x.loc() for x in loads], "allocs": [x.loc() for x in allocs]})
     ctx.floor("C04.4", "Checkpoint records built in the engine", n4, 2)
+
+    # ---- clause 5: the node table's label slot is the creation label -------------------------------------
+    # An I2E record stores one label.  Recovery skips CreateNode for nodes that are already in the table, so the creation label is never
+    # re-applied from the log: the slot is its only durable copy, while labels added later are re-applied from AddNodeLabel records.
+    # Any other writer of the slot (e.g. "keep it equal to the node's first label") replaces the creation label by one that replay
+    # re-adds anyway, and the creation label is gone after reopen.
+    ctx.rule("C04.5", "I2E records are written, and I2eRecord.label_id is assigned, only by node creation (and decoding)")
+    WRITE_I2E = "nervusdb_storage::idmap::write_i2e_record"
+    ALLOWED = ("nervusdb_storage::idmap::IdMap::apply_create_node_multi_label", "nervusdb_storage::idmap::IdMap::apply_create_node",
+               "nervusdb_storage::idmap::I2eRecord::decode", "nervusdb_storage::bulkload::")
+    ctx.body(WRITE_I2E)
+    n5 = 0
+    for x in sorted(F.callers().get(WRITE_I2E, ())):
+        n5 += 1
+        ctx.instance("C04.5", "write_i2e_record caller %s" % x)
+        ctx.oblige(x.startswith(ALLOWED), "C04.5", "i2e-writer:" + x,
+                   "%s rewrites a node-table record outside node creation: the record's single label slot is the only durable copy of the creation "
+                   "label, so overwriting it loses that label at the next reopen" % x.split("::")[-1], F.bodies[x].file)
+    for i, b in sorted(F.bodies.items()):
+        if not i.startswith("nervusdb_storage::") or "::tests::" in i:
+            continue
+        for blk in b.blocks:
+            for st in blk["s"]:
+                if st[0] == "a" and any(isinstance(p_, list) and p_[0] == "f" and p_[2] == "label_id" and "I2eRecord" in str(p_[3]) for p_ in st[1][1]):
+                    n5 += 1
+                    ctx.instance("C04.5", "%s assigns I2eRecord.label_id (%s:%d)" % (i, b.file, st[3]))
+                    ctx.oblige(i.startswith(ALLOWED), "C04.5", "label-slot-assigned:" + (b.root or i),
+                               "%s assigns the label slot of an existing node-table record" % i.split("::")[-1], "%s:%d" % (b.file, st[3]))
+    ctx.floor("C04.5", "writers of I2E records", n5, 1)
